@@ -50,6 +50,11 @@ def _drop_delete(evs):
 
 def check(run):
     run.build()
+    from vlib import Inconclusive
+    run.tlc_mc("DiffMergeMC", "DiffMergeMC.cfg", label="alg/doubleWalkDiff merge loop satisfies N1 N2 N4 N6 on all 20736 (old destination, source) pairs over names a, a-b")
+    r = run.tlc_mc("DiffMergeMC", "DiffMergeMC_nosep.cfg", label="sanity: rmdir register without separator must be rejected", expect_error=True)
+    if "is violated" not in r["out"]:
+        raise Inconclusive("DiffMergeMC sanity configuration was not rejected: the model is vacuous")
     t1, _ = run.drive("sync", name="sync-hist", extra=["-what", "hist"])
     t2, _ = run.drive("sync", name="sync-pairs")
     fails = []
